@@ -8,13 +8,13 @@ P = {
  "C01": ("E-TERM typed terms x all-valuations SQLite table vs R-EVAL", "§3 C01",
          "bounded-exhaustive enumeration of typed filters (all terms with <=k constructor nodes), each translated by the real SQLite dialect and executed on a table holding every valuation of the referenced columns; selected ids compared with a three-valued reference evaluator",
          "R-EVAL/R-PRINT oracles, SQLite 3.40 as the engine, value domains of Appendix B"),
- "C02": ("E-TERM typed terms x all-valuations table through Django shorthand vs R-EVAL", "§3 C02",
+ "C02": ("E-TERM typed terms + all ordered pairs of boolean-valued operands x all-valuations table through Django shorthand vs R-EVAL", "§3 C02",
          "same enumeration as C01 over the Django-supported fragment, executed through apply_odata_query on a Django model backed by in-memory SQLite",
          "R-EVAL oracle, Django 6 + SQLite engine semantics"),
  "C03": ("E-TERM typed terms x 3 SQLAlchemy entry styles x keyword case vs R-EVAL", "§3 C03",
          "same enumeration over the SQLAlchemy fragment, three entry styles and keyword-case variants; results must match R-EVAL and each other",
          "R-EVAL oracle, SQLAlchemy 2.0 + SQLite engine semantics"),
- "C04": ("relational filter grammar x all small database instances vs relational R-EVAL", "§3 C04",
+ "C04": ("relational filter grammar x all small database instances vs relational R-EVAL; second schema (to_field key, non-default manager name, reverse one-to-one) x all its instances vs per-filter oracle", "§3 C04",
          "exhaustive enumeration of path/lambda filters up to the stated bound x product instance and all small instances, Django and SQLAlchemy results compared with a relational reference evaluator",
          "relational R-EVAL, SQLite engine"),
  "C05": ("exhaustive operator trees + BFS over real LR configurations + full action-table coverage vs precedence-climbing reference", "§3 C05",
@@ -29,7 +29,7 @@ P = {
  "C08": ("all ORM filter skeletons k<=2 x all pairs of adversarial literal assignments; compiled SQL must be identical", "§3 C08",
          "compiled SQL text/params of Django and SQLAlchemy compared across literal assignments",
          "Django/SQLAlchemy compilers report the SQL and parameters they would send"),
- "C09": ("typed terms with unique leaves x 3 dialects x alias, parsed by independent SQL parser, span preservation", "§3 C09",
+ "C09": ("typed terms with unique leaves x 3 dialects x alias, parsed by independent SQL parser, span preservation; SQLite dialect statements prepared in SQLite; non-ASCII digit spellings", "§3 C09",
          "exhaustive enumeration up to k constructor nodes; the emitted SQL must parse and mirror the filter tree",
          "R-SQL parser implements standard SQL precedence"),
  "C10": ("all atom strings up to k, BFS over LR configurations, constructor closure over abstract AST shapes, pumped cycles, all single edits", "§3 C10",
@@ -38,19 +38,19 @@ P = {
  "C11": ("exhaustive (name x arity x argument kind) matrix vs pinned OData function table", "§3 C11",
          "all built-in names and near misses x counts 0..5 x argument kinds; accept/reject and exception fields compared with a pinned table",
          "the pinned copy of the OData function table"),
- "C12": ("(node kind x position x backend) matrix, outcome classification", "§3 C12",
+ "C12": ("(node kind x position x backend) matrix incl. null / list / overflow operands and named parameters, refusal-then-reuse histories on one visitor, outcome classification", "§3 C12",
          "every two-level well-typed term through 7 backends; outcome must be complete output or library exception",
          "completeness is judged by leaf/operator presence in the output"),
  "C13": ("parser image up to k operator nodes + compound leaves: parse(render(t)) == t", "§3 C13",
          "exhaustive trees as in C05 with string contents over a quote/percent alphabet; round trip through the real renderer and parser",
          "none beyond the enumeration bound"),
- "C14": ("trees x alias maps vs scoping-aware reference substitution", "§3 C14",
+ "C14": ("trees x alias maps vs scoping-aware reference substitution; composition of rewrites; all schedules (preemption-bounded, switch before every node visit) of two visits on one shared rewriter", "§3 C14",
          "all trees <=2 operator nodes x all maps <=2 entries from a colliding key/target menu",
          "R-SUBST reference"),
  "C15": ("base-query menu x filters x instances; SQLAlchemy function-registry histories in fresh processes", "§3 C15",
          "exhaustive menu products executed on SQLite; registry histories of length <=3",
          "relational R-EVAL; SQLAlchemy registry introspection"),
- "C16": ("all ASTs with <=2 composite nodes x visitors; all pairs equality", "§3 C16",
+ "C16": ("all ASTs with <=2 composite nodes x visitors; all (shipped visitor, base-class operation) pairs on one shared tree object; all pairs equality", "§3 C16",
          "direct AST construction over every node class and field kind; traversal order vs reference; mutation dumps",
          "R-SUBST traversal reference"),
  "C17": ("trees x variable names vs reference re-rooting", "§3 C17",
@@ -62,7 +62,7 @@ P = {
  "C19": ("corpus x all single/double whitespace and keyword-case deviations", "§3 C19",
          "exhaustive layout/case deviations; AST equality by value and backend agreement",
          "none beyond the corpus and deviation bounds"),
- "C20": ("BFS over parse-call histories on shared instances; all token-level schedules of concurrent parses; hash seeds x import orders", "§3 C20",
+ "C20": ("BFS over parse-call histories on shared instances; all token-level schedules of concurrent parses; every placement of the deferred finalisation of a failed parse's token generator; hash seeds x import orders", "§3 C20",
          "history BFS with canonical instance-state dedup, greenlet scheduler with preemption bound, fresh subprocess digests",
          "greenlet switch points at token pulls are the only interleaving points of the pure-python parser"),
 }
